@@ -17,7 +17,9 @@ import sys
 import time
 
 VERIF = os.path.dirname(os.path.dirname(os.path.abspath(__file__)))
-SUITE = ["tests/test_demes.py", "tests/test_load_dump.py", "tests/test_ms.py", "tests/test_import_visibility.py"]
+SUITE = ["tests/test_demes.py", "tests/test_load_dump.py", "tests/test_ms.py", "tests/test_import_visibility.py",
+         "tests/test_cli.py::TestParseCommand::test_nonyaml_output_with_multiple_graphs_error",
+         "tests/test_cli.py::TestTopLevel::test_no_arguments_produces_help_output"]
 
 
 def run(cmd, cwd=None, env=None, timeout=1800):
@@ -72,8 +74,17 @@ def main():
     if keep:
         d = os.path.join(VERIF, "seeded", sid)
         os.makedirs(d, exist_ok=True)
-        shutil.copy(diff, os.path.join(d, "patch.diff"))
-        shutil.copy(demo, os.path.join(d, "demo.py"))
+        for src, name in ((diff, "patch.diff"), (demo, "demo.py")):
+            if os.path.abspath(src) != os.path.join(d, name):
+                shutil.copy(src, os.path.join(d, name))
+        old = {}
+        try:
+            old = json.load(open(os.path.join(d, "meta.json")))
+        except Exception:  # noqa: BLE001
+            pass
+        for k in ("breaks_property", "change", "needs"):
+            if k in old and k not in meta:
+                meta[k] = old[k]
         meta.pop("worktree_checked", None)
         json.dump(meta, open(os.path.join(d, "meta.json"), "w"), indent=1)
     return 0
